@@ -388,6 +388,42 @@ def test_symmetry_modes(case, note):
                     dict(maxdiff=float(np.max(np.abs(got - want)))))
 
 
+def test_dtype(case, note):
+    """A real field stored in an integer or single-precision array is
+    differentiated like its float64 copy (integers exactly, float32 to single
+    precision); the result is a floating-point array."""
+    nontriv_grid(case, note)
+    p, b, shape, dxs = (case["order"], case["boundary"], case["shape"],
+                        case["dxs"])
+    fd = mkfd(shape, [1.0, 1.0, 1.0], p, b)
+    fd.inverse_dx, fd.inverse_dy, fd.inverse_dz = [1.0 / d for d in dxs]
+    f, _ = field(shape, dxs, (0.3, -0.2, 0.1), case["modes"], case["poly"])
+    fint = np.round(50 * f).astype(np.int64)
+    ops = [fd.d3x, fd.d3y, fd.d3z]
+    for dt in (np.int64, np.int32, np.float32):
+        a = fint.astype(dt) if dt != np.float32 else f.astype(np.float32)
+        ref64 = a.astype(np.float64)
+        keep = a.copy()
+        for ax, op in enumerate(ops):
+            got = op(a)
+            want = op(ref64)
+            name = np.dtype(dt).name
+            if not np.issubdtype(np.asarray(got).dtype, np.floating):
+                note.fail(f"dtype:{name}:result-not-floating",
+                          dict(dtype=str(np.asarray(got).dtype)))
+                continue
+            if dt == np.float32:
+                tol = 2e-5 * (np.max(np.abs(ref64)) + 1e-30) * 40.0 / dxs[ax]
+                bad = np.max(np.abs(got - want)) > tol
+            else:
+                bad = not np.array_equal(got, want)
+            if bad:
+                note.fail(f"dtype:{name}:value", dict(
+                    axis=ax, maxdiff=float(np.max(np.abs(got - want)))))
+        if not np.array_equal(a, keep) or a.dtype != keep.dtype:
+            note.fail(f"dtype:{np.dtype(dt).name}:input-modified", {})
+
+
 def subchecks(tier):
     q = tier == "quick"
     nmax = 24 if q else 64
@@ -401,6 +437,7 @@ def subchecks(tier):
             100 if q else 6000, shards=8),
         Sub("poly_exact", poly_case(), test_poly_exact,
             200 if q else 16000, shards=8),
+        Sub("dtype", grid_case(), test_dtype, 60 if q else 3000, shards=4),
         Sub("wrap_mirror", grid_case(), test_symmetry_modes,
             100 if q else 8000, shards=8),
     ]
